@@ -69,6 +69,8 @@ def generate(ctx):
             s = gen.make_signal(ctx.sub_rng(i), family=str(rng.choice(['sine', 'asym', 'sum', 'noise'])), fs=fs_, f0=f0_, n=int((4.4 + 3.5 * rng.random()) * fs_ / f0_))
         u = rng.random()
         fk = None if u < 0.35 else ({'n_cycles': int(rng.choice([2, 3, 4, 5]))} if u < 0.75 else {'n_seconds': float(rng.choice([0.25, 0.5, 0.75]))})
+        if i % 11 == 6:      # the keys PRESENT with value None (what a wrapper / config front-end forwards for 'not set'): the same as absent
+            fk = [{'n_cycles': None}, {'n_cycles': None, 'n_seconds': None}, {'n_cycles': None, 'n_seconds': 0.5}, {'n_seconds': None, 'n_cycles': 4}][(i // 11) % 4]
         method = str(rng.choice(['cycles', 'amp']))
         th = None
         if rng.random() < 0.7:
@@ -129,6 +131,10 @@ def evaluate(ctx, cases):
                 r['second_call_error'] = type(e).__name__ + ': ' + str(e)[:100]
         except Exception as e:
             r['err'] = type(e).__name__; r['msg'] = str(e)[:200]; r['kernel'] = implutil.raised_in_kernel(e)
+            if r['kernel'] and implutil.last_own_function(e) == 'find_extrema':
+                # the extrema filter: the harness has just run the SAME kernel with the arguments the property defines (filt_sign above) and it accepted them,
+                # so an exception from inside neurodsp at this stage is the library's doing (wrong arguments handed on), not a refusal of the input
+                r['kernel'] = False
         impl.append(r)
     wf_reqs, idx = [], []
     for i, (c, p, r) in enumerate(zip(cases, pre, impl)):
